@@ -363,21 +363,60 @@ def header_body(case, ctx):
         sim.close()
 
 
+# ---- coverage-guided byte-level campaign (thorough tier; vlib/atheris_target.py)
+FUZZ_MAX_LEN = 300
+_fz = {}
+
+
+def fuzz_prepare(ctx):
+    sim = CookieSim(ctx, {'expiry': 'session'})
+    sim.step(['req', 0, [['set', 'user', 'alice'], ['set', 'n', [1, 2.5, None]]]])
+    sim.step(['req', 1, [['set', 'k=&?', {'x': 'é'}]]])
+    _fz['sim'] = sim
+
+
+def fuzz_seeds(ctx):
+    sim = _fz['sim']
+    out = [c.strip('"').encode('latin1') for c in sim.client if c]
+    return out + [b'a?b=c', b'x?\xe9=1', b'?', b'AAAA?user=ImFsaWNlIg==']
+
+
+def fuzz_one(data, ctx):
+    sim = _fz['sim']
+    sent = clean(data.decode('latin1'))
+    n_before = len(sim.ledger)
+    sim.request(0, [], sent, 'fuzz')
+    del sim.ledger[n_before:]          # read-only requests issue nothing; keep the state identical for every input
+    return '?' in sent and '=' in sent
+
+
 def shards(tier, seed):
     q = tier == 'quick'
     out = [{'part': 'machine', 'n': 30 if q else 900, 'steps': 30} for _ in range(10)]
-    out += [{'part': 'header', 'n': 250 if q else 20000} for _ in range(6)]
+    out += [{'part': 'header', 'n': 250 if q else 20000} for _ in range(6 if q else 5)]
+    if not q:
+        out.append({'part': 'atheris', 'runs': 400000})
     return out
 
 
 def run_shard(spec, ctx):
     if spec['part'] == 'machine':
         ctx.machine(machine(), spec['n'], spec['steps'], kind='history')
+    elif spec['part'] == 'atheris':
+        from vlib.shard import run_atheris
+        run_atheris(ctx, 'C16', spec['runs'])
     else:
         ctx.hyp(header_strategy(), header_body, spec['n'], kind='header')
 
 
 def replay(case, kind, ctx):
+    if kind == 'bytes' or (isinstance(case, dict) and 'bytes' in case):
+        fuzz_prepare(ctx)
+        try:
+            fuzz_one(case['bytes'].encode('latin1'), ctx)
+        finally:
+            _fz['sim'].close()
+        return
     if kind == 'header' or (case and case[0] in ('session', 100)):
         header_body(case, ctx)
         return
